@@ -26,6 +26,7 @@ func (c *Client) doReload(ctx context.Context) {
 	onReload := func(prev, curr []Tunnel) {
 		diff := diffTunnels(prev, curr)
 		c.closeOutdatedProxies(diff...)
+		verifPoint("client.reload.window")
 		c.Configuration.buildRouter(diff...)
 	}
 	c.configMu.Lock()
